@@ -48,10 +48,14 @@ class ProgSet:
     def __init__(self, run, name, prelude=""):
         self.run, self.name, self.prelude = run, name, prelude
         self.cases = []          # (body, exp_str, rec)
+        self.opts = {}
 
-    def add(self, body, exp, rec):
+    def add(self, body, exp, rec, isolate=False, accept=None):
+        """exp: expected printed value.  isolate: run the case in its own process under a timeout (its expected
+        value may be "TIMEOUT").  accept: optional predicate(got) overriding the equality with exp."""
         assert "\n" not in body
         self.cases.append((body, exp, rec))
+        self.opts[len(self.cases) - 1] = (isolate, accept)
 
     def _write(self, d, live):
         os.makedirs(os.path.join(d, "src"), exist_ok=True)
@@ -72,9 +76,12 @@ class ProgSet:
         for k in live:
             lines.append("fn case_%d() -> String { %s }" % (k, self.cases[k][0]))
             idx.append(k)
-        lines.append("fn main() { std::panic::set_hook(Box::new(|_| {})); let cases: &[(usize, fn() -> String)] = &[%s]; "
-                     "for (i, f) in cases { let r = catch_unwind(AssertUnwindSafe(|| f())).unwrap_or_else(|_| String::from(\"PANIC\")); "
-                     "println!(\"{}\\t{}\", i, r); } }" % ", ".join("(%d, case_%d)" % (k, k) for k in live))
+        lines.append("fn main() { std::panic::set_hook(Box::new(|_| {})); let only: Option<usize> = std::env::args().nth(1).map(|x| x.parse().unwrap()); "
+                     "let skip: &[usize] = &[%s]; let cases: &[(usize, fn() -> String)] = &[%s]; "
+                     "for (i, f) in cases { if let Some(o) = only { if o != *i { continue; } } else if skip.contains(i) { continue; } "
+                     "let r = catch_unwind(AssertUnwindSafe(|| f())).unwrap_or_else(|_| String::from(\"PANIC\")); "
+                     "println!(\"{}\\t{}\", i, r); } }" % (", ".join(str(k) for k in live if self.opts.get(k, (False, None))[0]),
+                                                            ", ".join("(%d, case_%d)" % (k, k) for k in live)))
         with open(os.path.join(d, "src", "main.rs"), "w") as f:
             f.write("\n".join(lines) + "\n")
         return idx
@@ -107,6 +114,10 @@ class ProgSet:
             for k in sorted(bad):
                 body, exp, rec = self.cases[k]
                 msg = re.search(r"error(\[E\d+\])?: [^\n]*", p.stdout)
+                acc = self.opts.get(k, (False, None))[1]
+                if acc is not None and acc("COMPILE-ERROR"):
+                    run.notes["case rejected at compile time (allowed outcome)"] = run.notes.get("case rejected at compile time (allowed outcome)", 0) + 1
+                    continue
                 run.add_violation({"kind": "program", "records": [rec],
                                    "detail": {"variant": "prog:%s:does-not-compile" % rec.get("mac", self.name),
                                               "got": "COMPILE-ERROR " + (msg.group(0)[:200] if msg else ""),
@@ -122,10 +133,39 @@ class ProgSet:
             if "\t" in line:
                 a, b = line.split("\t", 1)
                 got[int(a)] = b
+        # isolated cases: one process each, under a timeout (non-termination is an observable outcome)
+        iso = [k for k in live if self.opts.get(k, (False, None))[0]]
+
+        def one(k):
+            r = subprocess.run(["timeout", "3", exe, str(k)], stdout=subprocess.PIPE, stderr=subprocess.PIPE, text=True,
+                               preexec_fn=core._limits)
+            if r.returncode == 124:
+                return k, "TIMEOUT"
+            for line in r.stdout.splitlines():
+                if "\t" in line:
+                    return k, line.split("\t", 1)[1]
+            return k, "NO-OUTPUT(process rc=%s)" % r.returncode
+        with ThreadPoolExecutor(8) as ex:
+            for k, g in ex.map(one, iso):
+                got[k] = g
         n = 0
         for k in live:
             body, exp, rec = self.cases[k]
             g = got.get(k, "NO-OUTPUT(process rc=%s)" % q.returncode)
+            acc = self.opts.get(k, (False, None))[1]
+            if acc is not None:
+                n += 1
+                run.replay_checks += 1
+                key = "prog:" + str(rec.get("mac", self.name))
+                run.per_op[key] = run.per_op.get(key, 0) + 1
+                if not acc(g):
+                    run.add_violation({"kind": "program", "records": [rec],
+                                       "detail": {"variant": key, "got": g, "exp": exp, "rec": rec, "body": body,
+                                                  "prelude": self.prelude}})
+                elif g != exp:
+                    run.notes["impl_model_drift: allowed outcome differs from the model's prediction"] = \
+                        run.notes.get("impl_model_drift: allowed outcome differs from the model's prediction", 0) + 1
+                continue
             n += 1
             run.replay_checks += 1
             key = "prog:" + str(rec.get("mac", self.name))
